@@ -14,7 +14,7 @@ class CheckC17(core.Check):
     level = "exploration"
     cfg = "A"
     rule = (
-        "case = honest session with needed / unneeded / absent pre-shared statics, converted to stateful or stateless "
+        "case = honest session with needed / unneeded / absent / stale pre-shared statics (a quarter of the X25519 peers encode their public keys with bit 255 set), converted to stateful or stateless "
         "transport; after EVERY op the reported remote static is compared with the expectation from the token table and "
         "the model-computed public key; distinct key = (pattern+psk variant, DH, supplied-key variant, transport mode); "
         "non-trivial = at least one snapshot with a key present was compared in handshake AND transport state"
@@ -49,11 +49,24 @@ class CheckC17(core.Check):
         for pid, ini in (("A", True), ("B", False)):
             if not needs_remote_static(parsed.pattern, ini) and receives_static_at(parsed.pattern, ini) is not None and rnd.random() < 0.25:
                 wrongpin[pid] = other.pub_r if ini else other.pub_i
+        # an honest peer may encode its X25519 public keys with bit 255 set (resolver `+hb`; receivers mask that bit for the DH,
+        # but the key is hashed, transmitted and must be reported exactly as the peer presents it)
+        hb = set()
+        if parsed.dh == "25519" and rnd.random() < 0.25:
+            hb = rnd.choice([{"A"}, {"B"}, {"A", "B"}])
+
+        def enc(owner, k):
+            return k[:31] + bytes([k[31] | 0x80]) if (owner in hb and k is not None) else k
+
+        kws = {}
         for pid, ini, j in (("A", True, 0), ("B", False, 1)):
             kw = sessions.party_kwargs(parsed, keys, ini, supply[j])
+            if "rs" in kw:
+                kw["rs"] = enc("B" if ini else "A", kw["rs"])
             if pid in wrongpin:
                 kw["rs"] = wrongpin[pid]
-            c.party(pid, "i" if ini else "r", name, rng="script:%d" % (seed + j), rec="-", **kw)
+            kws[pid] = kw
+            c.party(pid, "i" if ini else "r", name, res="D+hb" if pid in hb else "D", rng="script:%d" % (seed + j), rec="-", **kw)
         c.op("build", "A")
         c.op("build", "B")
         c.op("obs", "A")
@@ -85,19 +98,14 @@ class CheckC17(core.Check):
             c.op("rekey_in", "B")
         c.op("obs", "A")
         c.op("obs", "B")
-        kw_i = sessions.party_kwargs(parsed, keys, True, supply[0])
-        kw_r = sessions.party_kwargs(parsed, keys, False, supply[1])
-        if "A" in wrongpin:
-            kw_i["rs"] = wrongpin["A"]
-        if "B" in wrongpin:
-            kw_r["rs"] = wrongpin["B"]
+        kw_i, kw_r = kws["A"], kws["B"]
         c.info = {
             "name": name,
             "pat": parsed.pattern,
             "supplied": {"A": kw_i.get("rs"), "B": kw_r.get("rs")},
-            "peerpub": {"A": keys.pub_r, "B": keys.pub_i},
+            "peerpub": {"A": enc("B", keys.pub_r), "B": enc("A", keys.pub_i)},
             "recv_at": {"A": receives_static_at(parsed.pattern, True), "B": receives_static_at(parsed.pattern, False)},
-            "key": (name.split("_")[1], parsed.dh, supply, stateless, tuple(sorted(wrongpin))),
+            "key": (name.split("_")[1], parsed.dh, supply, stateless, tuple(sorted(wrongpin)), tuple(sorted(hb))),
         }
         return c
 
